@@ -534,6 +534,41 @@ func runC02(w *World, r *Report) {
 		}
 	}
 
+	r.Rule("C02.skip-propagates-on-the-transition", "dagChannel.reportSkip answers 'became skipped' — true only where the channel was not skipped before (what it returns depends on the value Skipped had on entry): reportBranch enqueues every node reportSkip answers true for, a successor is listed once per edge kind, so an answer of 'is skipped' on every call doubles the work list at every node of an untaken chain (2^N: twenty skipped nodes take half a second, thirty would need gigabytes)", 1)
+	{
+		rs := w.Fn("compose", "dagChannel.reportSkip")
+		fSk := w.Field("compose", "dagChannel", "Skipped")
+		var loads []*ssa.UnOp
+		var store *ssa.Store
+		instrs(rs, func(in ssa.Instruction) {
+			if u, ok := in.(*ssa.UnOp); ok && u.Op == token.MUL {
+				if fa, isFA := u.X.(*ssa.FieldAddr); isFA && sameField(fieldVarOfAddr(fa), fSk) {
+					loads = append(loads, u)
+				}
+			}
+			if st, ok := in.(*ssa.Store); ok {
+				if fa, isFA := st.Addr.(*ssa.FieldAddr); isFA && sameField(fieldVarOfAddr(fa), fSk) {
+					store = st
+				}
+			}
+		})
+		good := false
+		if store != nil {
+			instrs(rs, func(in ssa.Instruction) {
+				ret, ok := in.(*ssa.Return)
+				if !ok || len(ret.Results) != 1 {
+					return
+				}
+				for _, ld := range loads {
+					if instrDominates(ld, store) && dataDependsOn(ret.Results[0], ld) {
+						good = true
+					}
+				}
+			})
+		}
+		r.Check(good, "C02.skip-propagates-on-the-transition", "dagChannel.reportSkip returns true only on the transition", rs.Pos(), "the result depends on Skipped as it was on entry", "reportSkip answers true whenever the channel IS skipped, also when it already was: every further report re-enqueues the node in reportBranch, and with each successor listed once as data and once as control successor the work list doubles per node — a branch that leaves a plain chain a1 -> … -> aN -> END untaken costs 2^N (24 nodes: 7 s, 30: out of memory) although none of the nodes runs")
+	}
+
 	r.Rule("C02.visits-all", "the loops that hand a finished node's output and dependencies to its successors (resolveCompletedTasks, updateValues, updateDependencies, createTasks) are left only when exhausted or with an error: a duplicate or data-less target met first must not end the delivery for the targets listed after it (shared with C01 / C03)", 4)
 	ruleLoopsTotal(w, r, "C02.visits-all", []*ssa.Function{
 		w.Fn("compose", "runner.resolveCompletedTasks"), w.Fn("compose", "channelManager.updateValues"), w.Fn("compose", "channelManager.updateDependencies"), w.Fn("compose", "runner.createTasks"),
